@@ -549,3 +549,53 @@ impl Subscriber for SubLog {
         });
     }
 }
+
+// ---------------------------------------------------------------------------------------------
+
+/// Writer builder that keeps nothing (the harness must not hold memory that grows with traffic).
+#[derive(Default)]
+pub struct NullBuilder {
+    pub writers: std::cell::Cell<u64>,
+}
+pub struct NullWriter;
+impl flute::receiver::writer::ObjectWriterBuilder for NullBuilder {
+    fn new_object_writer(
+        &self,
+        _e: &flute::core::UDPEndpoint,
+        _tsi: &u64,
+        _toi: &u128,
+        _meta: &flute::receiver::writer::ObjectMetadata,
+        _now: std::time::SystemTime,
+    ) -> flute::receiver::writer::ObjectWriterBuilderResult {
+        self.writers.set(self.writers.get() + 1);
+        flute::receiver::writer::ObjectWriterBuilderResult::StoreObject(Box::new(NullWriter))
+    }
+    fn update_cache_control(&self, _e: &flute::core::UDPEndpoint, _tsi: &u64, _toi: &u128, _meta: &flute::receiver::writer::ObjectMetadata, _now: std::time::SystemTime) {}
+    fn fdt_received(
+        &self,
+        _e: &flute::core::UDPEndpoint,
+        _tsi: &u64,
+        _xml: &str,
+        _expires: std::time::SystemTime,
+        _meta: &flute::receiver::writer::ObjectMetadata,
+        _d: std::time::Duration,
+        _now: std::time::SystemTime,
+        _ext: Option<std::time::SystemTime>,
+    ) {
+    }
+}
+impl flute::receiver::writer::ObjectWriter for NullWriter {
+    fn open(&self, _now: std::time::SystemTime) -> flute::error::Result<()> {
+        Ok(())
+    }
+    fn write(&self, _sbn: u32, _data: &[u8], _now: std::time::SystemTime) -> flute::error::Result<()> {
+        Ok(())
+    }
+    fn complete(&self, _now: std::time::SystemTime) {}
+    fn error(&self, _now: std::time::SystemTime) {}
+    fn interrupted(&self, _now: std::time::SystemTime) {}
+    fn enable_md5_check(&self) -> bool {
+        false
+    }
+}
+
